@@ -197,7 +197,7 @@ class SymClient(Client):
     def __init__(self, repo: Repo, f: FuncInfo, event_of: Callable, inline: Optional[Callable] = None,
                  hierarchy: Optional[ExcHierarchy] = None, raises_of: Optional[Callable] = None,
                  depth: int = 0, branch_hook: Optional[Callable] = None,
-                 store_event: Optional[Callable] = None):
+                 store_event: Optional[Callable] = None, field_event: Optional[Callable] = None):
         self.repo = repo
         self.f = f
         self.mod = f.module
@@ -207,6 +207,7 @@ class SymClient(Client):
         self.raises_of = raises_of
         self.branch_hook = branch_hook
         self.store_event = store_event
+        self.field_event = field_event
         if hierarchy is not None:
             self.hierarchy = hierarchy
         self.depth = depth
@@ -333,7 +334,7 @@ class SymClient(Client):
             if p not in env:
                 env[p] = ast.unparse(d)
         sub = SymClient(self.repo, fi, self.event_of, self.inline, self.hierarchy, self.raises_of,
-                        self.depth + 1, self.branch_hook, self.store_event)
+                        self.depth + 1, self.branch_hook, self.store_event, self.field_event)
         sub.log = self.log
         init = SymState(frozenset(env.items()), s.heap, s.conds, s.trail)
         o = sub.run(init)
@@ -462,6 +463,8 @@ class SymClient(Client):
             if self.store_event is not None and self.store_event(base + '.' + t.attr):
                 s = self.emit(s, Event('store', base + '.' + t.attr, (term,), (), (), t.lineno, s.conds, self.f.key))
             if is_token(base):
+                if self.field_event is not None and self.field_event(base, t.attr):
+                    s = self.emit(s, Event('setfield', base + '.' + t.attr, (term,), (), (), t.lineno, s.conds, self.f.key))
                 return s.set_field(base, t.attr, term)
             # write through a non-local object: record as event-free store on a pseudo token
             return s.set_field('EXT:' + base, t.attr, term)
@@ -535,7 +538,17 @@ class SymClient(Client):
             return [s]
         n = int(s.trail[idx].args[0])
         it = Event('iterated', 'L%d' % st.lineno, (), (), (), st.lineno, s.conds[:n], self.f.key)
-        return [SymState(s.env, s.heap, s.conds[:n], s.trail[:idx + 1] + (it,), s.ret)]
+        # variables re-bound in the body (plain assignment) become loop-carried unknowns
+        env = dict(s.env)
+        for node in ast.walk(st):
+            if isinstance(node, ast.Assign):
+                for t in node.targets:
+                    for nm in ([t] if isinstance(t, ast.Name) else [x for x in ast.walk(t) if isinstance(x, ast.Name)]):
+                        phi = 'PHI_%s_L%d' % (nm.id, st.lineno)
+                        if isinstance(nm.ctx, ast.Store) and nm.id in env and env[nm.id] != phi \
+                                and (phi in env[nm.id] or len(env[nm.id]) > 160):
+                            env[nm.id] = phi
+        return [SymState(frozenset(env.items()), s.heap, s.conds[:n], s.trail[:idx + 1] + (it,), s.ret)]
 
     def handler_bind(self, h: ast.ExceptHandler, s: SymState, exc: str):
         s1 = s.add_cond('exc:%s@L%d' % (exc, h.lineno))
@@ -556,6 +569,14 @@ class SymClient(Client):
         if self.raises_of is None:
             return []
         return sorted(set(self.raises_of(node, self, s)))
+
+    def raises_iter(self, st, s: SymState):
+        if self.raises_of is None:
+            return []
+        fake = ast.Call(func=ast.Name(id='__next__', ctx=ast.Load()), args=[st.iter], keywords=[])
+        ast.copy_location(fake, st)
+        ast.fix_missing_locations(fake)
+        return sorted(set(self.raises_of(fake, self, s)))
 
     def nested_def(self, st, s):
         return [s]
@@ -604,6 +625,10 @@ def loop_body_outcomes(client: SymClient, loop: ast.AST):
     states = set()
     for st in entries:
         st = SymState(st.env, st.heap, st.conds, (), None)
+        # loop-carried counters: at the start of an arbitrary iteration their value is PRE_<name>
+        for n in ast.walk(loop):
+            if isinstance(n, ast.AugAssign) and isinstance(n.target, ast.Name):
+                st = st.set(n.target.id, 'PRE_' + n.target.id)
         if isinstance(loop, ast.For):
             states |= set(client.loop_bind(loop, st))
         else:
